@@ -44,9 +44,15 @@ class Env:
             c = ops.const_int(length)
             if c is not None:
                 ops.set_len(t, c)
-            self.ctx.assume(z3.Length(t) == ops.term(length, 'int'))
+                self.ctx.assume(z3.Length(t) == c)
+            else:
+                ops.set_len_term(t, ops.term(length, 'int'))
+        else:
+            n = z3.Int(name + '!len')
+            self.ctx.assume(n >= 0)
+            ops.set_len_term(t, n)
         if maxlen is not None:
-            self.ctx.assume(z3.Length(t) <= ops.term(maxlen, 'int'))
+            self.ctx.assume(ops.blen(t) <= ops.term(maxlen, 'int'))
         return self._reg(name, Sym(t, 'bytes'))
 
     def str(self, name):
@@ -101,6 +107,16 @@ class Env:
         info.ensure_evaluated()
         return info.class_attrs[name]
 
+    def elem(self, seq, i, old=None):
+        """element i of a symbolic list as a value (fields of objects are read in the live state, or in the
+        pre-state when `old` (the old namespace) is given)"""
+        it = ops.term(i, 'int')
+        v = self.ip.wrap(z3.Select(seq.arr, it), seq.elem)
+        if old is not None and isinstance(v, SymObj):
+            from .heap import SnapState
+            v.st = SnapState(old._snap)
+        return v
+
     def member_logger(self):
         from . import libspec
         return libspec._LOGGER
@@ -154,13 +170,16 @@ class Env:
         if m.sort == IntSort and m.nonneg:
             self.ctx.assume(t >= 0)
             self.ctx.assume(z3.Implies(seq.n == 0, t == 0))
+        m.link(self.ctx, seq)
         return Sym(t, 'int' if m.sort == IntSort else 'bytes')
 
-    def field(self, clsqual, attr, kind):
-        """declare a field map for symbolic objects of the class"""
+    def field(self, clsqual, attr, kind, inv=None):
+        """declare a field map for symbolic objects of the class (inv: invariant of the field, instantiated at every read)"""
         info = self.cls(clsqual)
         arr = z3.Const('fld_%s_%s' % (info.name, attr), z3.ArraySort(IntSort, kind.sort()))
         self.ip.state.fields[(info.name, attr)] = (arr, kind)
+        if inv is not None:
+            self.ip.state.field_inv[(info.name, attr)] = inv
 
     def symobj(self, name, clsqual):
         info = self.cls(clsqual)
